@@ -101,10 +101,11 @@ var c42Eps = map[string]c42Ep{
 	"B": {"10.1.1.2", 5555, false, true},  // remote ready
 	"C": {"10.1.1.3", 5555, false, false}, // remote terminating (not ready)
 	"L": {"10.1.0.4", 5555, true, true},   // second local ready
+	"T": {"10.1.0.5", 5555, true, false},  // LOCAL terminating (not ready): must not be counted as a local backend
 }
 
 // endpoint-list variants for svc1 (input ORDER matters: local-first must hold whatever the order)
-var c42EpVariants = [][]string{{}, {"A"}, {"B"}, {"B", "A"}, {"A", "B", "C"}, {"C"}, {"B", "L", "A"}, {"B", "C"}}
+var c42EpVariants = [][]string{{}, {"A"}, {"B"}, {"B", "A"}, {"A", "B", "C"}, {"C"}, {"B", "L", "A"}, {"B", "C"}, {"T"}, {"T", "B"}, {"A", "T", "B"}}
 
 var c42SvcVariants = []string{"absent", "plain", "np", "ext", "local", "port81", "sticky"}
 
